@@ -62,13 +62,6 @@ func (b *OnDemandBlockTaskPool) VerifConfig() string {
 	return fmt.Sprintf("init=%d core=%d max=%d cap=%d rate=%g", b.initGo, b.coreGo, b.maxGo, cap(b.queue), b.queueBacklogRate)
 }
 
-// VerifNumGo is the live worker count (same as the unexported numOfGo, with the lock).
-func (b *OnDemandBlockTaskPool) VerifNumGo() int32 {
-	b.mutex.RLock()
-	defer b.mutex.RUnlock()
-	return b.totalGo
-}
-
 // VerifRunning is numGoRunningTasks.
 func (b *OnDemandBlockTaskPool) VerifRunning() int32 { return atomic.LoadInt32(&b.numGoRunningTasks) }
 
